@@ -105,10 +105,8 @@ package hamt
 //@ ensures err != nil ==> result == nil
 
 //@ func (*hamt._UnixFSHAMTShard).lookup
-//@ domain counter-no-wrap: 0 <= loads && loads < (1 << 61) && loads + (len(hv.b) * 8 - hv.consumed) < (1 << 61)
-//@ ensures requests-monotone: old(loads) <= loads
-//@ ensures requests-bounded-by-path: loads - hv.consumed <= old(loads) - old(hv.consumed)
-//@ ensures consumed-grows: old(hv.consumed) <= hv.consumed
+//@ domain counter-no-wrap: 0 <= loads && loads < (1 << 61)
+//@ at call (*hamt._UnixFSHAMTShard).lookup#1 assert one-request-per-level: old(loads) <= loads && loads <= old(loads) + 1 && hv.consumed >= old(hv.consumed) + 1 && hv.consumed <= len(hv.b) * 8
 //@ decreases len(hv.b) * 8 - hv.consumed
 
 // The length memo is either the "not yet counted" sentinel -1 or a count; a counted shard is never
